@@ -181,6 +181,9 @@ pub proof fn lemma_c15(a: nat, b: nat, x: nat, y: nat, t: nat)
         /*[C15 slip.ok-within-tolerance]*/ slippage_tolerance matches Some(t) ==> r is Ok ==>
             c15_ok(deposits[0].0 as nat, deposits[1].0 as nat, pools[0].amount.0 as nat, pools[1].amount.0 as nat, t.0 as nat)
             && c15_ok(deposits[1].0 as nat, deposits[0].0 as nat, pools[1].amount.0 as nat, pools[0].amount.0 as nat, t.0 as nat),
+        /*[C15 slip.rejected-only-above-one-or-unsafe]*/ slippage_tolerance matches Some(t) ==> r is Err ==> t.0 as nat > dd()
+            || !(c15_safe(deposits[0].0 as nat, deposits[1].0 as nat, pools[0].amount.0 as nat, pools[1].amount.0 as nat, t.0 as nat)
+                 && c15_safe(deposits[1].0 as nat, deposits[0].0 as nat, pools[1].amount.0 as nat, pools[0].amount.0 as nat, t.0 as nat)),
         /*[C15 slip.never-rejected-when-safe]*/ slippage_tolerance matches Some(t) ==> (r matches Err(ContractError::MaxSlippageAssertion {})) ==>
             !(c15_safe(deposits[0].0 as nat, deposits[1].0 as nat, pools[0].amount.0 as nat, pools[1].amount.0 as nat, t.0 as nat)
               && c15_safe(deposits[1].0 as nat, deposits[0].0 as nat, pools[1].amount.0 as nat, pools[0].amount.0 as nat, t.0 as nat)),
